@@ -14,7 +14,7 @@ usage: mutants.py generate <out.json> [--files f1,f2] [--max N] [--seed S]
 import ast, copy, json, os, random, shutil, subprocess, sys, tempfile, multiprocessing
 
 HERE = os.path.dirname(os.path.dirname(os.path.abspath(__file__)))
-sys.path.insert(0, HERE)
+sys.path.insert(0, os.environ.get('MUT_SEDLINT_SNAPSHOT') or HERE)          # a frozen copy of the checker, so that it can be worked on while a sweep runs
 SCRATCH = '/root/scratch' if os.path.isdir('/root/scratch') else tempfile.gettempdir()
 
 SIBLINGS = [('flux', 'error'), ('wav', 'nu'), ('av', 'sc'), ('min', 'max'), ('n_wav', 'n_data'), ('n_ap', 'n_wav'), ('val', 'unc'), ('av_min', 'av_max'), ('x', 'y'),
